@@ -26,6 +26,7 @@ def run(chk, F):
     chk.guard("child-facts", "become_child", lambda: child(chk, F))
     chk.guard("execute-pairing", "Sandbox::execute", lambda: execute(chk, F))
     chk.guard("frame-agreement", "Frame", lambda: frame(chk, F))
+    chk.guard("child-stdout", "RinkService", lambda: child_stdout(chk, F))
 
 
 def loops(e):
@@ -399,3 +400,29 @@ def frame(chk, F):
         chk.decide(e["order"] == ["serialize", "write_all", "write_all", "flush"], "frame-agreement", FK, w + ":order", "sandbox/src/frame.rs",
                    "%s: serialize, prefix, body, flush" % w, "%s order is %s" % (w, e["order"]))
     chk.extra["frame_table"] = table
+
+
+def child_stdout(chk, F):
+    """In the child, fd 1 is the frame pipe (become_child writes replies to std::io::stdout()).  Anything the service code
+    prints to stdout - `println!` is std::io::_print - lands inside the frame stream; the parent then reads text as a length
+    prefix and waits for gigabytes that never come.  So `_print` must not be reachable from the CLI's service (its `create`
+    runs config::load, which loads the data files and refreshes the currency cache; `handle` evaluates queries)."""
+    import cg
+    G = cg.get(F)
+    roots = [f for f in F.by_crate["rink"] if "service::RinkService as rink_sandbox::Service>::" in f.path and f.path.split("::")[-1] in ("create", "handle")]
+    if len(roots) != 2:
+        raise AnchorLost("RinkService::create/handle not found")
+    parent = G.reachable(roots)
+    hits = []
+    for fid in parent:
+        fn = F.fns[fid]
+        for bb, t in fn.calls():
+            if "callee" in t and t["callee"]["path"].endswith("io::stdio::_print"):
+                hits.append((fid, fn.where(bb)))
+    for r in roots:
+        chk.ok("child-stdout", "rink::" + r.path, "root", r.where(), "service entry point (%d functions reachable)" % len(parent))
+    chk.decide(not hits, "child-stdout", "rink::service::RinkService", "no-print-to-the-frame-pipe", hits[0][1] if hits else "",
+               "nothing reachable from the sandboxed service writes to stdout with print!/println!",
+               "the sandboxed service can print to stdout, which is the frame pipe in the child (%d sites, e.g. %s): the parent reads the text as a frame "
+               "length and the request never gets a reply" % (len(hits), ", ".join(h[1] for h in hits[:4])),
+               path=G.path_to(parent, hits[0][0]) if hits else None)
